@@ -208,6 +208,53 @@ def aliasing_phase(ctx, pristine):
                      {"kind": "impl-vs-statement", "rule": rname, "queries_before": q0, "queries_after": q, "validation_before": v0, "validation_after": v})
 
 
+
+# ------------------------------------------------------------------ type-confusable unlisted values (lesson q)
+CONFUSABLE = [False, True, 0, 1, 0.0, 1.0, None]
+
+
+def confusable_phase(ctx, pristine):
+    """Each of False/True/0/1/0.0/1.0/None is "one unlisted value" of an enumerated attribute (the table lists strings; the
+    flag that leads a table entry is not a value): ATTRIBUTE_EXPECTED_ENUM for that attribute, in both modes."""
+    from metapype.eml import rule as R
+    from metapype.eml.exceptions import MetapypeRuleError
+    from metapype.model.node import Node
+    from harness import vtrees as VT
+    for rname, rj in pristine.items():
+        rattrs = rj[0]
+        content = RL.canonical_content(rj)
+        base = [(k, (sp[1] if len(sp) > 1 else "v")) for k, sp in rattrs.items() if sp[0] is True]
+        for k, sp in rattrs.items():
+            if len(sp) <= 1:
+                continue
+            for v in CONFUSABLE:
+                n = RL.build_node("x", content, [kv for kv in base if kv[0] != k], [])
+                n.add_attribute(k, v)
+                errs, raised = [], None
+                try:
+                    VT.with_limit(lambda: R.Rule(rname).validate_rule(n, errs))
+                except Exception as e:  # noqa
+                    raised = type(e).__name__
+                try:
+                    VT.with_limit(lambda: R.Rule(rname).validate_rule(n))
+                    ff = "OK"
+                except MetapypeRuleError as e:
+                    ff = type(e).__name__
+                except Exception as e:  # noqa
+                    ff = "CRASH:" + type(e).__name__
+                Node.store.clear()
+                got = [[e[0].name, e[3] if len(e) > 3 else None] for e in errs if e[0].name.startswith("ATTRIBUTE_")]
+                ctx.case(("confusable", rname, k, repr(v)))
+                ctx.count("type_confusable_values")
+                if raised or ff.startswith("CRASH") or got != [["ATTRIBUTE_EXPECTED_ENUM", k]] or ff == "OK":
+                    ctx.fail(f"C03:type-confusable:{rname}",
+                             f"attribute {k!r} = {v!r} (not one of the listed values {sp[1:]}) : collecting mode reports {got}"
+                             f"{' and raised ' + raised if raised else ''}, fail-fast gives {ff}; the statement implies exactly ATTRIBUTE_EXPECTED_ENUM",
+                             {"kind": "impl-vs-statement", "rule": rname, "attribute": k, "value_repr": repr(v), "table_entry": sp,
+                              "other_attributes": [kv for kv in base if kv[0] != k], "content": content,
+                              "observed_attribute_records": got, "observed_ff": ff, "collecting_raised": raised})
+
+
 def run(ctx):
     from metapype.eml import rule as R
     built = ctx.build(extra_targets=["theories/Model/RuleRun.v"])
@@ -289,6 +336,7 @@ def run(ctx):
                  {"kind": "impl-vs-statement", "rules_changed": changed, "live": {k: rules.get(k) for k in changed[:3]},
                   "file": {k: pristine.get(k) for k in changed[:3]}})
     # ... and the containers the introspection API hands out must not be a way to change what is reported/enforced
+    confusable_phase(ctx, pristine)
     aliasing_phase(ctx, pristine)
     changed = VT.table_diff()
     if changed:
